@@ -21,11 +21,14 @@ Proof.
 Qed.
 
 Section Stream.
+  Variable send : nat -> bytes -> bytes -> bytes * bytes.
   Variables (fs : nat) (latency start ssrc : N) (lim : nat) (seq0 : N) (chunks : list bytes).
 
-  (* the transport never reports is_closing() in this section *)
+  (* the transport never reports is_closing() in this section; the protocol object sends
+     header ++ audio and returns the same bytes (AirPlayV1, AirPlayV2 without audio cipher) *)
   Definition cf : cfg :=
-    {| c_fs := fs; c_latency := latency; c_start := start; c_ssrc := ssrc; c_lim := lim; c_close := None |}.
+    {| c_send := send; c_fs := fs; c_latency := latency; c_start := start; c_ssrc := ssrc;
+       c_lim := lim; c_close := None |}.
 
   Definition psz := FRAMES_PER_PACKET * fs.
   Definition nd := length chunks.                               (* data packets *)
@@ -53,6 +56,7 @@ Section Stream.
        s_src := skipn (S i) (map Ok chunks); s_reads := S i; s_backlog := backlog_at i;
        s_out := map pkt (seq 0 i) |}.
 
+  Hypothesis Hsend : forall n h a, send n h a = (h ++ a, h ++ a).
   Hypothesis Hfs : 0 < fs.
   Hypothesis Hlat : (0 < latency)%N.
   Hypothesis Hlim1 : 1 <= lim.
@@ -63,13 +67,13 @@ Section Stream.
   Hypothesis Hts : (latency + 352 * N.of_nat total <= TSLIM)%N.
 
   Lemma psz_eq : packet_size cf = psz.
-  Proof using. clear Hfs Hlat Hlim1 Hlim2 Hseq0 Hssrc Hchunks Hts. reflexivity. Qed.
+  Proof. reflexivity. Qed.
 
   Lemma npad_spec : (352 * N.of_nat npad >= latency)%N /\ (0 < npad -> (352 * N.of_nat (npad - 1) < latency)%N).
-  Proof using. clear Hfs Hlat Hlim1 Hlim2 Hseq0 Hssrc Hchunks Hts. unfold npad. split; [lia|]. intro. lia. Qed.
+  Proof. unfold npad. split; [lia|]. intro. lia. Qed.
 
   Lemma npad_pos : 0 < npad.
-  Proof using Hlat. clear Hfs Hlim1 Hlim2 Hseq0 Hssrc Hchunks Hts. unfold npad. lia. Qed.
+  Proof. unfold npad. lia. Qed.
 
   Lemma pad_lt i : i < total -> (latency <=? 352 * N.of_nat (i - nd))%N = false.
   Proof.
@@ -85,7 +89,7 @@ Section Stream.
   Qed.
 
   Lemma payload_length i : length (payload i) = psz.
-  Proof using Hchunks. clear Hfs Hlat Hlim1 Hlim2 Hseq0 Hssrc Hts.
+  Proof using Hchunks. clear Hsend Hfs Hlat Hlim1 Hlim2 Hseq0 Hssrc Hts; try clear send.
     unfold payload. destruct (i <? nd) eqn:E; [|apply zeros_length].
     apply Nat.ltb_lt in E. unfold padded.
     destruct (length (nth i chunks []) =? psz) eqn:E2; [now apply Nat.eqb_eq in E2|].
@@ -101,23 +105,23 @@ Section Stream.
 
   (* ---------------------------------------------------------------- sequence numbers *)
   Lemma seqof_lt i : (seqof i < SEQMOD)%N.
-  Proof using. clear Hfs Hlat Hlim1 Hlim2 Hseq0 Hssrc Hchunks Hts. unfold seqof, SEQMOD. lia. Qed.
+  Proof using. clear Hsend Hfs Hlat Hlim1 Hlim2 Hseq0 Hssrc Hchunks Hts; try clear send. unfold seqof, SEQMOD. lia. Qed.
 
   Lemma seqof_S i : ((seqof i + 1) mod SEQMOD)%N = seqof (S i).
-  Proof using. clear Hfs Hlat Hlim1 Hlim2 Hseq0 Hssrc Hchunks Hts. unfold seqof, SEQMOD. lia. Qed.
+  Proof using. clear Hsend Hfs Hlat Hlim1 Hlim2 Hseq0 Hssrc Hchunks Hts; try clear send. unfold seqof, SEQMOD. lia. Qed.
 
   Lemma seqof_neq j i : j < i -> (N.of_nat (i - j) < SEQMOD)%N -> seqof j <> seqof i.
-  Proof using. clear Hfs Hlat Hlim1 Hlim2 Hseq0 Hssrc Hchunks Hts. unfold seqof, SEQMOD. intros H1 H2 E. lia. Qed.
+  Proof using. clear Hsend Hfs Hlat Hlim1 Hlim2 Hseq0 Hssrc Hchunks Hts; try clear send. unfold seqof, SEQMOD. intros H1 H2 E. lia. Qed.
 
   (* ---------------------------------------------------------------- backlog *)
   Lemma window_length i : length (window i) = Nat.min i lim.
-  Proof using. clear Hfs Hlat Hlim1 Hlim2 Hseq0 Hssrc Hchunks Hts. unfold window. apply seq_length. Qed.
+  Proof using. clear Hsend Hfs Hlat Hlim1 Hlim2 Hseq0 Hssrc Hchunks Hts; try clear send. unfold window. apply seq_length. Qed.
 
   Lemma in_window i j : In j (window i) <-> i - Nat.min i lim <= j < i.
-  Proof using. clear Hfs Hlat Hlim1 Hlim2 Hseq0 Hssrc Hchunks Hts. unfold window. rewrite in_seq. lia. Qed.
+  Proof using. clear Hsend Hfs Hlat Hlim1 Hlim2 Hseq0 Hssrc Hchunks Hts; try clear send. unfold window. rewrite in_seq. lia. Qed.
 
   Lemma backlog_mem i : fifo_mem (seqof i) (backlog_at i) = false.
-  Proof using Hlim2. clear Hfs Hlat Hlim1 Hseq0 Hssrc Hchunks Hts.
+  Proof using Hlim2. clear Hsend Hfs Hlat Hlim1 Hseq0 Hssrc Hchunks Hts; try clear send.
     unfold fifo_mem. destruct (existsb _ _) eqn:E; [|reflexivity]. exfalso.
     apply existsb_exists in E as [e [Hin He]]. unfold backlog_at in Hin.
     apply in_map_iff in Hin as [j [<- Hj]]. apply in_window in Hj. cbn [fst] in He.
@@ -126,7 +130,7 @@ Section Stream.
 
   Lemma backlog_set i :
     fifo_set lim (backlog_at i) (seqof i) (pkt i) = Ok (backlog_at (S i)).
-  Proof using Hlim1 Hlim2. clear Hfs Hlat Hseq0 Hssrc Hchunks Hts.
+  Proof using Hlim1 Hlim2. clear Hsend Hfs Hlat Hseq0 Hssrc Hchunks Hts; try clear send.
     unfold fifo_set. rewrite backlog_mem. unfold backlog_at at 1 2. rewrite map_length, window_length.
     destruct (lim <? Nat.min i lim + 1) eqn:E.
     - apply Nat.ltb_lt in E. assert (L : lim <= i) by lia.
@@ -188,8 +192,8 @@ Section Stream.
     emit cf (i =? 0) (st_mid i) (payload i) = (st_at (S i), Ok 352%N).
   Proof.
     intro H. unfold emit. rewrite rtptime_mid. cbn [c_ssrc cf s_seq st_mid].
-    rewrite (header_at i _ H). unfold is_closing. cbn [c_close cf c_lim s_backlog st_mid].
-    fold (pkt i). rewrite backlog_set.
+    rewrite (header_at i _ H). unfold is_closing. cbn [c_close cf c_lim c_send s_backlog st_mid].
+    rewrite Hsend. fold (pkt i). rewrite backlog_set.
     rewrite (frames_of_psz _ (payload_length i)).
     unfold st_at. cbn [s_seq s_head s_pad s_src s_reads s_out st_mid]. rewrite seqof_S.
     do 2 f_equal.
@@ -284,7 +288,7 @@ Section Stream.
   Qed.
 
   Lemma laps_spec_le : forall sched i, i <= total -> i <= fst (laps_spec sched i) <= total.
-  Proof using. clear Hfs Hlat Hlim1 Hlim2 Hseq0 Hssrc Hchunks Hts.
+  Proof using. clear Hsend Hfs Hlat Hlim1 Hlim2 Hseq0 Hssrc Hchunks Hts; try clear send.
     induction sched as [|l t IH]; intros i Hi; cbn [laps_spec]; [cbn [fst]; lia|].
     destruct (l_stop l); [cbn [fst]; lia|].
     destruct (i <? total) eqn:E; [|cbn [fst]; lia].
@@ -301,7 +305,7 @@ Section Stream.
   Qed.
 
   Lemma laps_spec_finished : forall sched i, snd (laps_spec sched i) = Finished -> fst (laps_spec sched i) = total \/ total <= i.
-  Proof using. clear Hfs Hlat Hlim1 Hlim2 Hseq0 Hssrc Hchunks Hts.
+  Proof using. clear Hsend Hfs Hlat Hlim1 Hlim2 Hseq0 Hssrc Hchunks Hts; try clear send.
     induction sched as [|l t IH]; intros i; cbn [laps_spec]; [discriminate|].
     destruct (l_stop l); [discriminate|].
     destruct (i <? total) eqn:E; [|apply Nat.ltb_ge in E; right; exact E].
@@ -315,7 +319,7 @@ Section Stream.
   Lemma laps_spec_complete : forall sched i,
     i <= total -> Forall (fun l => l_stop l = false) sched -> total - i < length sched ->
     laps_spec sched i = (total, Finished).
-  Proof using. clear Hfs Hlat Hlim1 Hlim2 Hseq0 Hssrc Hchunks Hts.
+  Proof using. clear Hsend Hfs Hlat Hlim1 Hlim2 Hseq0 Hssrc Hchunks Hts; try clear send.
     induction sched as [|l t IH]; intros i Hi Hs Hl; [cbn [length] in Hl; lia|].
     inversion Hs as [|? ? Hl0 Ht]; subst. cbn [laps_spec]. rewrite Hl0.
     destruct (i <? total) eqn:E.
@@ -340,30 +344,30 @@ Section Stream.
 
   (* ---------------------------------------------------------------- header fields of pkt i *)
   Lemma be16_dec n : (n < SEQMOD)%N -> (nthb (be16 n) 0 * 256 + nthb (be16 n) 1)%N = n.
-  Proof using. clear Hfs Hlat Hlim1 Hlim2 Hseq0 Hssrc Hchunks Hts. unfold be16, nthb, SEQMOD. cbn [nth]. lia. Qed.
+  Proof using. clear Hsend Hfs Hlat Hlim1 Hlim2 Hseq0 Hssrc Hchunks Hts; try clear send. unfold be16, nthb, SEQMOD. cbn [nth]. lia. Qed.
 
   Lemma pkt_seq i : seq_of_dgram (pkt i) = seqof i.
-  Proof using. clear Hfs Hlat Hlim1 Hlim2 Hseq0 Hssrc Hchunks Hts.
+  Proof using. clear Hsend Hfs Hlat Hlim1 Hlim2 Hseq0 Hssrc Hchunks Hts; try clear send.
     unfold seq_of_dgram, pkt, hdr, nthb. cbn [app nth be16].
     pose proof (seqof_lt i). unfold SEQMOD in *. lia.
   Qed.
 
   Lemma pkt_marker i : nthb (pkt i) 1 = if i =? 0 then 224%N else 96%N.
-  Proof using. clear Hfs Hlat Hlim1 Hlim2 Hseq0 Hssrc Hchunks Hts. unfold pkt, hdr, nthb. cbn [app nth]. reflexivity. Qed.
+  Proof using. clear Hsend Hfs Hlat Hlim1 Hlim2 Hseq0 Hssrc Hchunks Hts; try clear send. unfold pkt, hdr, nthb. cbn [app nth]. reflexivity. Qed.
 
   Definition ts_of_dgram (d : bytes) : N :=
     (nthb d 4 * 16777216 + nthb d 5 * 65536 + nthb d 6 * 256 + nthb d 7)%N.
 
   Lemma pkt_ts i : i < total -> ts_of_dgram (pkt i) = tsof i.
-  Proof using Hts. clear Hfs Hlat Hlim1 Hlim2 Hseq0 Hssrc Hchunks.
+  Proof using Hts. clear Hsend Hfs Hlat Hlim1 Hlim2 Hseq0 Hssrc Hchunks; try clear send.
     intro H. unfold ts_of_dgram, pkt, hdr, nthb. cbn [app nth be16 be32].
     assert (tsof i < TSLIM)%N by (unfold tsof; lia). unfold TSLIM in *. lia.
   Qed.
 
   Lemma pkt_payload i : skipn 12 (pkt i) = payload i.
-  Proof using. clear Hfs Hlat Hlim1 Hlim2 Hseq0 Hssrc Hchunks Hts. unfold pkt, hdr. cbn [app be16 be32 skipn]. reflexivity. Qed.
+  Proof using. clear Hsend Hfs Hlat Hlim1 Hlim2 Hseq0 Hssrc Hchunks Hts; try clear send. unfold pkt, hdr. cbn [app be16 be32 skipn]. reflexivity. Qed.
 
   Lemma pkt_length i : length (pkt i) = 12 + psz.
-  Proof using Hchunks. clear Hfs Hlat Hlim1 Hlim2 Hseq0 Hssrc Hts. unfold pkt, hdr. cbn [app be16 be32 length]. rewrite payload_length. reflexivity. Qed.
+  Proof using Hchunks. clear Hsend Hfs Hlat Hlim1 Hlim2 Hseq0 Hssrc Hts; try clear send. unfold pkt, hdr. cbn [app be16 be32 length]. rewrite payload_length. reflexivity. Qed.
 
 End Stream.
